@@ -1058,6 +1058,22 @@ def _refuse(repo, col):
               "raise if any edge of type 1..4 is present (only type-0 edges are accumulated)",
               f"the refusal guard is {'missing' if not ok else 'restricted to types ' + str(types)}: edges of types 1-4 would "
               f"be silently ignored by the explicit vector field", node=first or fi.node)
+    # (nbranches, -1) reshapes need equally long branches: unequal compartment counts must be refused first
+    se = repo.func(SV, "step_voltage_explicit")
+    body = se.node.body
+    first_reshape = next((i for i, st in enumerate(body) for n in ast.walk(st)
+                          if isinstance(n, ast.Call) and unparse(n.func).endswith("reshape") and "-1" in unparse(n)), None)
+    guard = next((i for i, st in enumerate(body) if isinstance(st, ast.If) and any(isinstance(x, ast.Raise) for x in st.body)
+                  and "ncomp_per_branch" in unparse(st.test)), None)
+    if first_reshape is None:
+        col.ok(R, se, "forward Euler: no (nbranches, -1) reshape", "no equal-length assumption", node=se.node)
+    else:
+        col.check(guard is not None and guard < first_reshape, R, se,
+                  "forward Euler refuses branches with different numbers of compartments before reshaping to (nbranches, -1)",
+                  "raise NotImplementedError if ncomp_per_branch is not constant",
+                  "step_voltage_explicit reshapes voltages / conductances to (nbranches, -1) without refusing unequal compartment counts: "
+                  "for a network of an unbranched cell with 2 and one with 4 compartments the rows mix the two cells (6 mV error after 4 steps)",
+                  node=body[first_reshape])
     for fname in ("_triang_level", "_backsub_level"):
         f2 = repo.func(SV, fname)
         chain = next((n for n in walk_no_nested(f2.node) if isinstance(n, ast.If)), None)
